@@ -1882,6 +1882,8 @@ static int delcols_work (
 			qslp->colnames[j] = qslp->colnames[i];
 			if (qslp->intmarker)
 				qslp->intmarker[j] = qslp->intmarker[i];
+			if (qslp->is_sos_mem)
+				qslp->is_sos_mem[j] = qslp->is_sos_mem[i];
 			j++;
 		}
 		else
@@ -2304,6 +2306,12 @@ int EGLPNUM_TYPENAME_ILLlib_addcol (
 			//                                 sizeof (char));
 			//CHECKRVALG(rval,CLEANUP);
 		}
+		if (qslp->is_sos_mem)
+		{
+			qslp->is_sos_mem = EGrealloc (qslp->is_sos_mem,
+																		sizeof (int) * (qslp->structsize +
+																										EXTRA_COLS));
+		}
 		qslp->structsize += EXTRA_COLS;
 	}
 
@@ -2312,6 +2320,11 @@ int EGLPNUM_TYPENAME_ILLlib_addcol (
 	{
 		/* NOTE: If we want to add integer variables, this is the place. */
 		qslp->intmarker[qslp->nstruct] = (char) 0;
+	}
+	if (qslp->is_sos_mem)
+	{
+		/* the new column is in no SOS set */
+		qslp->is_sos_mem[qslp->nstruct] = -1;
 	}
 
 	ILL_FAILtrue (qslp->colnames == NULL, "must always be non NULL");
